@@ -64,15 +64,26 @@ func compiled(codec *dnsdata.Codec, r dnsdata.Record) (all []string, own int, er
 	}
 	out := make([]string, 0, len(m)+len(acc))
 	for _, x := range m {
-		out = append(out, fmt.Sprintf("%q=%q", x.Key, x.Value))
+		out = append(out, "rec "+string(x.Key)+kvSep+string(x.Value))
 	}
 	nrec := len(out)
 	for _, x := range acc {
-		out = append(out, fmt.Sprintf("acc %q=%q", x.Key, x.Value))
+		out = append(out, "acc "+string(x.Key)+kvSep+string(x.Value))
 	}
 	sort.Strings(out[:nrec])
 	sort.Strings(out[nrec:])
 	return out, nrec, nil
+}
+
+// kvSep separates key and value in the strings built by compiled (raw bytes; quoted only when printed).
+const kvSep = "\x00=>\x00"
+
+func quoteKV(s string) string {
+	i := strings.Index(s, kvSep)
+	if i < 0 {
+		return fmt.Sprintf("%q", s)
+	}
+	return fmt.Sprintf("%s%q=%q", s[:4], s[4:i], s[i+len(kvSep):])
 }
 
 type outcome struct {
@@ -121,7 +132,7 @@ func evalLine(line string, c cfg) (o outcome) {
 		o.detail = fmt.Sprintf("line %q [%s]: normal form %q parses but MarshalMap fails: %v", line, c, t1, err)
 		return o
 	}
-	if strings.Join(m1, "\n") != strings.Join(m2, "\n") {
+	if !sameStrings(m1, m2) {
 		o.kind = "map"
 		o.detail = fmt.Sprintf("line %q [%s]: normal form %q compiles differently:\n original: %s\n reparsed: %s", line, c, t1, diffSide(m1, m2), diffSide(m2, m1))
 		return o
@@ -140,6 +151,18 @@ func evalLine(line string, c cfg) (o outcome) {
 	return o
 }
 
+func sameStrings(a, b []string) bool {
+	if len(a) != len(b) {
+		return false
+	}
+	for i := range a {
+		if a[i] != b[i] {
+			return false
+		}
+	}
+	return true
+}
+
 // diffSide lists the entries of a that are not in b.
 func diffSide(a, b []string) string {
 	in := map[string]int{}
@@ -152,7 +175,7 @@ func diffSide(a, b []string) string {
 			in[x]--
 			continue
 		}
-		out = append(out, x)
+		out = append(out, quoteKV(x))
 	}
 	if len(out) == 0 {
 		return "(nothing extra)"
